@@ -50,4 +50,17 @@ CHECKS = {
              "sets are restricted to provably ill-formed text. Failures are bucketed by (exception type, innermost "
              "shroud frame) and token-minimised.",
     ),
+    "C16": dict(
+        level="exploration",
+        technique="metamorphic property-based testing: Hypothesis-drawn option variants vs all-off baseline, "
+                  "comment-free token-stream equality by independent lexers",
+        design_ref="DESIGN.md section 4, C16",
+        text="For corpus entries and generated libraries, every drawn on/off combination of debug, doxygen, "
+             "show_splicer_comments, --write-version (globally) and literalinclude / the three options on drawn "
+             "declarations must yield the same set of files and token-identical C, C++, Fortran, Python-extension and "
+             "Lua sources (and comment-stripped setup.py / *_types.yaml) as the all-off baseline; thorough enumerates "
+             "all 16 global combinations x version stamping for the whole corpus.",
+        note="Trusted base: the lexers in vf/lex.py. Library-level literalinclude/literalinclude2 are removed from the "
+             "subjects, as the property excludes them.",
+    ),
 }
